@@ -139,6 +139,11 @@ struct HPca : Harness {
     Outcome o;
     Prng dr(p.getu("data.seed"), PURPOSE_WORKLOAD);
     Mat X = make_data(p, dr);
+    if (p.has("x.rows")) {  // explicit data (stored reproducers of known findings must not depend on the generator): rows separated by spaces, cells by commas, C99 hex floats
+      X.clear(); for (auto &row : p.list("x.rows")) { std::vector<double> r; const char *q = row.c_str(); while (*q) { char *e; double v = strtod(q, &e); if (e == q) break; r.push_back(v); q = *e == ',' ? e + 1 : e; } if (!r.empty()) X.push_back(r); }
+      dr.next();
+    }
+    if (getenv("HPCA_DUMPX")) { fprintf(stderr, "x.rows="); for (size_t i = 0; i < X.size(); i++) { for (size_t j = 0; j < X[i].size(); j++) fprintf(stderr, "%s%a", j ? "," : (i ? " " : ""), X[i][j]); } fprintf(stderr, "\n"); }
     int n = (int)X.size(), pp = (int)X[0].size(), scaling = (int)p.geti("scaling"), nproc = (int)p.geti("machine.nproc", 1);
     int plan_strategy = p.has("sched.switches") ? SIM_REPLAY : (int)p.geti("sched.strategy");
     // preprocessed matrix and its numerical rank (library preprocessing is C10's business and trusted here)
@@ -208,10 +213,19 @@ struct HPca : Harness {
       } else if (!o.violation) o.fail("shape", "GetResidualMatrix: wrong shape");
       // variance bookkeeping, tolerance derived from the documented criterion (see DESIGN.md)
       double tau = 200.0 * npc * sqrt((double)n * DOC_PCA_CRITERION), sum = 0;
+      std::string close_order_msg;
       for (int k = 0; k < npc && !o.violation; k++) {
         sum += M.varexp[k];
         if (!(M.varexp[k] >= -tau)) o.fail("variance-bookkeeping", "explained variance is negative or NaN");
-        if (k && M.varexp[k] > M.varexp[k - 1] + tau) { char m[200]; snprintf(m, sizeof m, "explained variance increases: %.6g after %.6g", M.varexp[k], M.varexp[k - 1]); o.fail("variance-bookkeeping", m); }
+        if (k && M.varexp[k] > M.varexp[k - 1] + tau) {
+          // two components in the wrong order.  When their variances are within 5 % of each other this is the NIPALS iteration having
+          // stopped at the unstable fixed point (start column nearly orthogonal to the slightly larger axis): its own class, so that a
+          // listed finding about exactly this does not cover any other bookkeeping error
+          double rel = (M.varexp[k] - M.varexp[k - 1]) / M.varexp[k];
+          char m[240]; snprintf(m, sizeof m, "explained variance increases: %.6g after %.6g (components %d and %d, relative excess %.3g)", M.varexp[k], M.varexp[k - 1], k - 1, k, rel);
+          if (rel <= 0.05) { if (close_order_msg.empty()) close_order_msg = m; }   // reported only if every other clause holds (below)
+          else o.fail("variance-bookkeeping", m);
+        }
       }
       if (!o.violation && sum > 100 + tau) { char m[160]; snprintf(m, sizeof m, "explained variances sum to %.8g %%", sum); o.fail("variance-bookkeeping", m); }
       if (!o.violation && npc == (int)rank) {
@@ -221,6 +235,7 @@ struct HPca : Harness {
         for (int i = 0; i < n && !o.violation; i++) for (int j = 0; j < pp; j++) if (fabs(M.recon[i][j] - X[i][j]) > 1e-8 * (xs + 1e-300)) { char m[240]; snprintf(m, sizeof m, "PCAIndVarPredictor at full rank gives x[%d][%d]=%.12g, original %.12g (scaling %d)", i, j, M.recon[i][j], X[i][j], scaling); o.fail("reconstruction", m); break; }
       }
       for (int i = 0; i < n && !o.violation; i++) for (int k = 0; k < npc; k++) if (fabsl((LD)M.pscores[i][k] - T[k][i]) > 1e-8L * (en + 1e-300L)) { char m[240]; snprintf(m, sizeof m, "PCAScorePredictor on the training matrix gives score[%d][%d]=%.12g, model has %.12Lg (scaling %d)", i, k, M.pscores[i][k], T[k][i], scaling); o.fail("projection-of-training-data", m); break; }
+      if (!o.violation && !close_order_msg.empty()) o.fail("order-of-close-components", close_order_msg);
       o.counters["probe.identities_checked"]++;
     } else {
       // ---- C02: spectral correctness against a Jacobi eigen-decomposition of E'E, and equivariance
